@@ -24,7 +24,7 @@ THEOREMS = [
     'Pfst.C08.reindent_roundtrip', 'Pfst.C08.indentBlock_fixed', 'Pfst.C08.bytes_never_indentable',
     'Pfst.C08.strict_only_first',
     'Pfst.C08.header_untouched', 'Pfst.C08.toElif_sound', 'Pfst.C08.toElif_complete',
-    'Pfst.C08.annSimple_correct', 'Pfst.C08.twins_same_fixup', 'Pfst.C08.with_family_fixed',
+    'Pfst.C08.identifier_forms_normalised', 'Pfst.C08.annSimple_correct', 'Pfst.C08.twins_same_fixup', 'Pfst.C08.with_family_fixed',
     'Pfst.C08.put_back', 'Pfst.C08.put_copy', 'Pfst.C08.replace_self',
 ]
 RULE = ('(a) repr_str_multiline on ALL strings over the 12-character alphabet {\' " \\ LF TAB CR NUL a SPACE e-acute NBSP '
@@ -51,6 +51,10 @@ RULE = ('(a) repr_str_multiline on ALL strings over the 12-character alphabet {\
         'replaced by its own copy / pure AST / own_src / copy().src, twice, judged by ast.parse + dump + full reparse; the '
         'same with one more pair of parentheses around every expression (892 variants, incl. parenthesised AnnAssign targets, '
         'import levels, u-strings, async comprehensions: scalar fields derived from the spelling); '
+        'every identifier slot (Name.id, Attribute.attr, arg, keyword, import names / asnames / module, def and class names, '
+        'global / nonlocal, except-as, match captures, type parameters) put as str / list of lines / FST node / pure AST with '
+        'non-NFKC spellings (fraktur, fi-ligature, micro sign, fullwidth; dotted where allowed): stored value = NFKC = what '
+        'ast.parse reads from the new source; '
         'read accessors (own_src / own_lines with docstr None / True / False / strict, whole=False, get_docstr, '
         'get_line_comment, copy().src) called in all 24 orders and rotations on ONE unmodified node under rotating '
         'FST.options(docstr=...) defaults, each answer = the answer of a fresh tree under the same effective options; '
@@ -68,6 +72,8 @@ TRUSTED = [
     'modelled: fst_core._get_indentable_lns (which lines of a node may be re-indented: all but the continuation lines of '
     'multi-line string tokens that are not docstrings; docstr False / True / strict) and the line edits of _indent_lns / '
     '_dedent_lns; the list of multi-line string tokens and their kinds is computed with CPython tokenize + ast',
+    'extracted (by running the code): for code_as_identifier / _dotted / _star / _alias and each code form, whether the result is '
+    'the NFKC form on non-NFKC probe names (Gen/C08Ident.lean; theorem identifier_forms_normalised is rebuilt against it each run)',
     'extracted: membership of every statement kind in ASTS_LEAF_WITH / _FOR / _FUNCDEF / _TRY (Gen/C08Families.lean, each run); '
     'modelled: the decision that _fix_With_items follows a put into withitem.context_expr (parent in ASTS_LEAF_WITH), observed '
     'on sync / async twins',
@@ -1364,6 +1370,28 @@ def extract(ctx):
            'namespace Pfst.Gen.C08Families\n\n/-- columns: ' + ', '.join(FAMILIES) + ' -/\n'
            'def table : List (String × List Bool) := [\n' + ',\n'.join(rows) + ']\n\nend Pfst.Gen.C08Families\n')
     write_if_changed(LEAN / 'Pfst' / 'Gen' / 'C08Families.lean', txt)
+    # every identifier normaliser of code.py on every code form: does it return the NFKC form CPython will read?
+    import unicodedata
+    from fst import FST
+    from fst import code as codemod
+    rows = []
+    for fn, dotted in (('code_as_identifier', False), ('code_as_identifier_dotted', True), ('code_as_identifier_star', False),
+                       ('code_as_identifier_alias', True)):
+        f = getattr(codemod, fn)
+        probes = IDENT_NAMES + (['pkg.' + n for n in IDENT_NAMES[:3]] + [IDENT_NAMES[0] + '.sub'] if dotted else [])
+        for form in IDENT_FORMS:
+            ok = True
+            for n in probes:
+                try:
+                    r = f(_ident_code(n, form))
+                except Exception:
+                    continue        # refusing a form is not a wrong value
+                ok = ok and r == unicodedata.normalize('NFKC', n)
+            rows.append('  ("%s", "%s", %s)' % (fn, form, 'true' if ok else 'false'))
+    txt = ('-- GENERATED by harness/props/C08.py extract() by running /repo/src/fst/code.py; do not edit\n'
+           'namespace Pfst.Gen.C08Ident\n\n/-- (normaliser, code form, returns the NFKC form for every probe name it accepts) -/\n'
+           'def table : List (String × String × Bool) := [\n' + ',\n'.join(rows) + ']\n\nend Pfst.Gen.C08Ident\n')
+    write_if_changed(LEAN / 'Pfst' / 'Gen' / 'C08Ident.lean', txt)
 
 
 def _hdr_one(src, path, form, d0):
@@ -1542,6 +1570,95 @@ def _sweep_headers(ctx):
         ctx.brk('correspondence', name, f'{bad}/{len(cases)} differ; first: ' + repr(_FIRST.get(name))[:800])
 
 
+# ---- identifier slots: what is stored is what CPython reads back (NFKC), whatever the code form ------------------------
+
+IDENT_NAMES = ['\U0001d52a\U0001d52c\U0001d521', '\ufb01le', '\xb5', '\uff58', '\xe9', 'plain']   # fraktur, fi-ligature, micro, fullwidth
+IDENT_FORMS = ['str', 'lines', 'fst', 'ast']
+IDENT_SLOTS = [     # (label, source, path to the node, field, idx, dotted)
+    ('Name.id', 'n = 1\n', [['body', 0], ['targets', 0]], 'id', None, False),
+    ('Attribute.attr', 'a.n\n', [['body', 0], ['value', None]], 'attr', None, False),
+    ('arg.arg', 'def f(n, *, k=1): pass\n', [['body', 0], ['args', None], ['args', 0]], 'arg', None, False),
+    ('keyword.arg', 'f(n=1)\n', [['body', 0], ['value', None], ['keywords', 0]], 'arg', None, False),
+    ('Import.alias.name', 'import c.d as e\n', [['body', 0], ['names', 0]], 'name', None, True),
+    ('Import.alias.asname', 'import c.d as e\n', [['body', 0], ['names', 0]], 'asname', None, False),
+    ('ImportFrom.alias.name', 'from a import n as m\n', [['body', 0], ['names', 0]], 'name', None, False),
+    ('ImportFrom.alias.asname', 'from a import n as m\n', [['body', 0], ['names', 0]], 'asname', None, False),
+    ('ImportFrom.module', 'from a.b import x\n', [['body', 0]], 'module', None, True),
+    ('FunctionDef.name', 'def f(): pass\n', [['body', 0]], 'name', None, False),
+    ('AsyncFunctionDef.name', 'async def f(): pass\n', [['body', 0]], 'name', None, False),
+    ('ClassDef.name', 'class C: pass\n', [['body', 0]], 'name', None, False),
+    ('Global.names', 'def f():\n    global n, m\n', [['body', 0], ['body', 0]], 'names', 0, False),
+    ('Nonlocal.names', 'def f():\n    n = 1\n    def g():\n        nonlocal n\n', [['body', 0], ['body', 1], ['body', 0]], 'names', 0, False),
+    ('ExceptHandler.name', 'try: pass\nexcept E as n: pass\n', [['body', 0], ['handlers', 0]], 'name', None, False),
+    ('MatchAs.name', 'match a:\n    case n: pass\n', [['body', 0], ['cases', 0], ['pattern', None]], 'name', None, False),
+    ('MatchStar.name', 'match a:\n    case [*n]: pass\n', [['body', 0], ['cases', 0], ['pattern', None], ['patterns', 0]], 'name', None, False),
+    ('MatchMapping.rest', 'match a:\n    case {**n}: pass\n', [['body', 0], ['cases', 0], ['pattern', None]], 'rest', None, False),
+    ('MatchClass.kwd_attrs', 'match a:\n    case C(n=1): pass\n', [['body', 0], ['cases', 0], ['pattern', None]], 'kwd_attrs', 0, False),
+    ('TypeVar.name', 'type T[n] = int\n', [['body', 0], ['type_params', 0]], 'name', None, False),
+    ('ParamSpec.name', 'type T[**n] = int\n', [['body', 0], ['type_params', 0]], 'name', None, False),
+    ('TypeVarTuple.name', 'type T[*n] = int\n', [['body', 0], ['type_params', 0]], 'name', None, False),
+]
+
+
+def _ident_code(name, form):
+    from fst import FST
+    if form == 'str':
+        return name
+    if form == 'lines':
+        return [name]
+    if form == 'fst':
+        return FST(name, 'expr')
+    return ast.parse(name, mode='eval').body
+
+
+def _ident_one(label, form, name):
+    """(failure | None | 'refused', detail)"""
+    import unicodedata
+    _, src, path, field, idx, dotted = next(s for s in IDENT_SLOTS if s[0] == label)
+    root = _mk(src)
+    node = _de_path(root, path)
+    try:
+        if idx is None:
+            node.put(_ident_code(name, form), field)
+        else:
+            node.put(_ident_code(name, form), idx, field)
+    except Exception as e:
+        nm = type(e).__name__
+        return ('refused', str(e)[:100]) if nm in REFUSALS else ('crash:' + nm, str(e)[:200])
+    d = util.tree_equals_parse(root)
+    if d:
+        return 'tree!=parse', d[:300] + f' new source: {root.src!r}'
+    v = getattr(node.a, field)
+    v = v if idx is None else v[idx]
+    if v != unicodedata.normalize('NFKC', name):
+        return 'value!=nfkc', f'stored {v!r}, CPython reads {unicodedata.normalize("NFKC", name)!r}'
+    return None
+
+
+def _sweep_identifiers(ctx):
+    n = 0
+    refused = {}
+    for label, src, path, field, idx, dotted in IDENT_SLOTS:
+        try:
+            ast.parse(src)
+        except SyntaxError:
+            continue
+        names = IDENT_NAMES + (['pkg.' + x for x in IDENT_NAMES[:3]] + [IDENT_NAMES[0] + '.sub'] if dotted else [])
+        for form in IDENT_FORMS:
+            for name in names:
+                n += 1
+                w = {'op': 'ident', 'slot': label, 'form': form, 'name': name}
+                ctx.count('ident:' + repr(w), True)
+                r = _ident_one(label, form, name)
+                if r and r[0] == 'refused':
+                    refused[f'{label}/{form}'] = refused.get(f'{label}/{form}', 0) + 1
+                elif r:
+                    ctx.fail(f'C08|put-identifier-{form}|{label}|{r[0]}',
+                             f'{label} put as {form} with the spelling {name!r}: {r[0]}: {r[1]}', w)
+    ctx.notes['identifier_puts'] = n
+    ctx.notes['identifier_puts_refused'] = refused
+
+
 def _programs(ctx, n, stdlib):
     rng = random.Random(ctx.rng.random())
     return corpus.programs(rng, n, stdlib=stdlib)
@@ -1567,6 +1684,7 @@ def sweep(ctx):
     _timed(ctx, 'literals', _sweep_literals, ctx, rng.sample(lp, 700) if q else lp)
     _timed(ctx, 'blocks', _sweep_blocks, ctx, blks.programs())
     _timed(ctx, 'headers', _sweep_headers, ctx)
+    _timed(ctx, 'identifiers', _sweep_identifiers, ctx)
     docp = [(m, s) for m, s in lp if not m['bytes'] and m['form'].startswith('triple')]
     accp = [(s, lits.target_paths(m)) for m, s in docp] + \
         [(s, [p + [[f_, i]] for p, f_, i, _, _, _ in blks.positions(s)][:4]) for _, s in blks.programs()[::7]]
@@ -1590,6 +1708,7 @@ def search(ctx):
     strs = hint_strs + _fragment_strings(4) + _all_strings(4) + _random_strings(rng, 6000, lo=1, hi=80)
     _sweep_doc(ctx, [], strs[:16000])
     if not ctx.failures:
+        _sweep_identifiers(ctx)
         _sweep_headers(ctx)
     if not ctx.failures:
         _sweep_blocks(ctx, blks.programs())
@@ -1628,6 +1747,11 @@ def replay(ctx, data):
     if op == 'docstr':
         r = _doc_one(w['host'], w['s'])
         if r:
+            ctx.fail('replay', f'{r[0]}: {r[1]}', w)
+        return
+    if op == 'ident':
+        r = _ident_one(w['slot'], w['form'], w['name'])
+        if r and r[0] != 'refused':
             ctx.fail('replay', f'{r[0]}: {r[1]}', w)
         return
     if op == 'annsimple':
